@@ -38,6 +38,7 @@ type routeCase struct {
 	Caller    string `json:"caller_script,omitempty"`
 	MsgSeed   int64  `json:"msg_seed"`
 	ViaWrap   bool   `json:"via_wrapper,omitempty"`
+	Chain     bool   `json:"wrapped_children,omitempty"` // every child is Wrap(inner router -> fake client): Router ∘ Wrap ∘ Router
 }
 
 // Names in the line protocol are tokens without spaces. The model is parametric in names (it only
@@ -180,6 +181,7 @@ type routerRig struct {
 	pool    map[string]bool // names ever mentioned
 	results []string
 	typed   bool // use the generated typed accessors (Add<Client>, Remove<Client>, Get<Client>)
+	chain   bool // children are generated wrappers around an inner router that holds the fake client
 }
 
 func (g *routerRig) idOf(c any) string {
@@ -194,6 +196,14 @@ func (g *routerRig) idOf(c any) string {
 
 func (g *routerRig) mk(id int) any {
 	c := g.e.NewClient(&fakeConn{id: id, rec: g.rec})
+	if g.chain && g.e.Wrap != nil {
+		// the fake sits behind an inner router (any name resolves to it) presented as a client by the
+		// generated wrapper: the outer router must treat that wrapper like any other client
+		inner := g.e.New(router.WithFallback(func(string) (any, error) { return c, nil }))
+		var w any = g.e.Wrap(inner)
+		g.ids[w] = id
+		return w
+	}
 	g.ids[c] = id
 	return c
 }
@@ -368,6 +378,7 @@ func showCalls(sd protoreflect.ServiceDescriptor, calls []call, req proto.Messag
 // runRoute executes one case on the real generated router.
 func runRoute(e entry, c routeCase) (out routeOutcome, err error) {
 	g := newRig(e, c.Fb, c.Fac, true)
+	g.chain = c.Chain
 	if err = g.applyOps(c.Ops); err != nil {
 		return
 	}
@@ -512,6 +523,12 @@ func runRoute(e entry, c routeCase) (out routeOutcome, err error) {
 		cancelled = out.childCtx.Err() != nil
 	}
 	out.cancelled = cancelled
+	cancelS := fmt.Sprint(cancelled)
+	if c.Chain {
+		// the observed context is the innermost one (inner router behind the wrapper): the wrapper ends its
+		// server-side context when the call ends, as gRPC does, so it says nothing about the outer reqDone
+		cancelS = "na"
+	}
 	hdr := "none"
 	if ss.headerCalled {
 		hdr = mdTok(ss.header, "h")
@@ -538,8 +555,8 @@ func runRoute(e entry, c routeCase) (out routeOutcome, err error) {
 	if len(ss.setHeader) > 0 {
 		hdr += "+SetHeader"
 	}
-	out.answer = fmt.Sprintf("calls=%s hdr=%s sent=%s sends=%d recvs=%d tr=%s st=%s cancel=%v %s",
-		showCalls(sd, g.rec.calls, orig), hdr, commaList(sent), ss.sends, g.rec.recvs, tr, errTok(rerr, unTilde(c.Name)), cancelled, g.stateString())
+	out.answer = fmt.Sprintf("calls=%s hdr=%s sent=%s sends=%d recvs=%d tr=%s st=%s cancel=%s %s",
+		showCalls(sd, g.rec.calls, orig), hdr, commaList(sent), ss.sends, g.rec.recvs, tr, errTok(rerr, unTilde(c.Name)), cancelS, g.stateString())
 	return
 }
 
@@ -687,7 +704,7 @@ func monitorRoute(mon *lib.Monitor, e entry, c routeCase, o routeOutcome) {
 		return
 	}
 	ss := o.ss
-	cancelled := o.cancelled
+	cancelled := o.cancelled && !c.Chain
 	// messages: always a prefix, in order
 	for i, m := range ss.sent {
 		if i >= len(p.Msgs) || !proto.Equal(m, p.Msgs[i]) {
@@ -722,7 +739,7 @@ func monitorRoute(mon *lib.Monitor, e entry, c routeCase, o routeOutcome) {
 			if len(ss.sent) != ss.failAt {
 				viol("messages-altered", "exactly the messages before the failing Send are delivered", fmt.Sprint(ss.failAt), fmt.Sprint(len(ss.sent)))
 			}
-			if !cancelled {
+			if !cancelled && !c.Chain {
 				viol("not-cancelled-on-caller-error", "on a caller error the child's context must be cancelled", "cancelled", "still live")
 			}
 			return
@@ -856,8 +873,20 @@ func casesFor(rng *rand.Rand, e entry, method string, streaming bool, n int) []r
 		c.Ops, c.Name, c.ChildOut, c.ViaWrap = "a:x:1", "x", "m3", true
 		add(c)
 	}
+	if e.Wrap != nil {
+		// children that are themselves generated wrappers around an inner router
+		c = base
+		c.Ops, c.Name, c.Chain = "a:x:1,a:y:2", "y", true
+		if streaming {
+			c.Child, c.Caller = "-:-:9:1.2:eof:4", "-:-:77"
+		} else {
+			c.ChildOut = "m3"
+		}
+		add(c)
+	}
 	for len(out) < n {
 		c = base
+		c.Chain = e.Wrap != nil && !streaming && rng.Intn(6) == 0 // streams through a wrapper: C13's semantics (empty vs nil metadata, error position); only the fixed happy-path case above
 		c.Fb, c.Fac = facKinds[rng.Intn(len(facKinds))], facKinds[rng.Intn(len(facKinds))]
 		c.Ops = randOps(rng, 4)
 		c.Name = namePool[rng.Intn(len(namePool))]
@@ -949,7 +978,13 @@ func runForward(f lib.Flags, res *lib.Result, drv *lib.Driver) {
 		return
 	}
 	for i, p := range batch {
+		if p.c.Chain {
+			ans[i] = strings.Replace(strings.Replace(ans[i], "cancel=true", "cancel=na", 1), "cancel=false", "cancel=na", 1)
+		}
 		tie.Record(p.e.id()+"/"+p.c.Method+"/"+caseShape(p.c), true, p.c, ans[i], p.o.answer)
+		if p.c.Chain {
+			tie.Count("children-are-wrappers")
+		}
 		if strings.Contains(ans[i], "st=5 ") || strings.Contains(ans[i], "out=e5 ") {
 			tie.Count("notfound")
 		}
@@ -961,5 +996,5 @@ func runForward(f lib.Flags, res *lib.Result, drv *lib.Driver) {
 }
 
 func caseShape(c routeCase) string {
-	return fmt.Sprintf("%s/%s/%s/%s/%s/%s/%s/%v", c.Fb, c.Fac, c.Ops, c.Name, c.ChildOut, c.Child, c.Caller, c.ViaWrap)
+	return fmt.Sprintf("%s/%s/%s/%s/%s/%s/%s/%v/%v", c.Fb, c.Fac, c.Ops, c.Name, c.ChildOut, c.Child, c.Caller, c.ViaWrap, c.Chain)
 }
